@@ -330,7 +330,7 @@ func runC03(c *mon.Ctx) {
 		}
 	}
 	// random and mutated inputs
-	n := c.Pick(24000, 700000)
+	n := c.Pick(60000, 1000000)
 	for i := int64(0); i < n; i++ {
 		if !c.Mine("mutated", i) {
 			continue
